@@ -28,7 +28,9 @@ run(res, seed, tier) -> stats
                             (witness: the API calls of the run with the refused OS calls)
         MISMATCH giveback   the boolean conclusion of C11_all_freed_gives_back / C11_all_freed_collect_purged evaluated on
                             the synchronised model state differs from what the harness found     -> corr:give-back
-      With prop="C11" only these keys (and build / crash / model-run failures) are reported: the step-by-step keys are C07's.
+        MISMATCH step/inv   the lockstep was lost before the give-back point (and the harness found
+                            nothing itself)                                                      -> corr:give-back-lockstep
+      With prop="C11" only these keys (and build / crash / model-run failures) are reported: the other implementation-side keys are C07's.
 Stand-alone:  tools/commitmodel.py [seed] [tier] [C07|C11]"""
 import os, sys, collections
 sys.path.insert(0, os.path.dirname(os.path.abspath(__file__)))
@@ -192,7 +194,12 @@ def run(res, seed, tier, nseeds=None, nops=None, prop="C07"):
                         res.violation("corr:give-back", "the give-back conclusion evaluated on the synchronised model state and the real allocator disagree (%s build, variant %d, seed %d): %s" % (
                             cfgname, variant, s, gvb[0][:900]), witness=None)
                     if stp or inv:
-                        vlib.log("[C11] commit lockstep lost in %s/%d seed %d (%d records; C07 reports these): %s" % (cfgname, variant, s, len(stp) + len(inv), (stp + inv)[0][:300]))
+                        # the give-back evaluation is only as good as the lockstep: a lost lockstep is reported (C07 reports the details)
+                        vlib.log("[C11] commit lockstep lost in %s/%d seed %d (%d records): %s" % (cfgname, variant, s, len(stp) + len(inv), (stp + inv)[0][:300]))
+                        stats["lockstep_lost_runs"] += 1
+                        if "impl:not-given-back" not in seen:
+                            res.violation("corr:give-back-lockstep", "the commit model and the real allocator disagree before the give-back point (%s build, variant %d, seed %d; %d records; "
+                                          "tools/check C07 reports the same under corr:commit / corr:commit-inv), first: %s" % (cfgname, variant, s, len(stp) + len(inv), (stp + inv)[0][:900]), witness=None)
                     inv = []; stp = []
                 if inv:
                     try:
